@@ -37,7 +37,8 @@ def Global.init (size ef hb tt : Nat) (v : Variant) : Global :=
   { nodes := (List.range size).map (fun i => Node.new Storage.empty i size clusterHash ef hb tt v)
     msgs := []
     now := 0
-    grants := []
+    -- ghost: a single-node cluster starts as leader of term 1, i.e. has voted for itself in term 1
+    grants := if size == 1 then [(0, 1, 0)] else []
     lcommitted := [] }
 
 def Global.getNode? (g : Global) (i : Nat) : Option Node := g.nodes.find? (fun n => n.index == i)
@@ -107,5 +108,25 @@ def emitted (g g' : Global) : List (Nat × Msg) :=
   ((g'.msgs.drop g.msgs.length).zipIdx g.msgs.length).map (fun p => (p.2, p.1))
 
 def run (g : Global) (evs : List Event) : Global := evs.foldl (fun g e => (step g e).1) g
+
+/-- Every state the cluster can reach: any cluster size and timer configuration, any sequence of
+timer ticks, clock advances, message deliveries (any order, any number of times, or never) and
+client appends. -/
+inductive Reachable (v : Variant) : Global → Prop where
+  | init (size ef hb tt : Nat) : Reachable v (Global.init size ef hb tt v)
+  | step {g : Global} (e : Event) : Reachable v g → Reachable v (step g e).1
+
+theorem reachable_run {v : Variant} {g : Global} (h : Reachable v g) (evs : List Event) :
+    Reachable v (run g evs) := by
+  induction evs generalizing g with
+  | nil => exact h
+  | cons e es ih => exact ih (Reachable.step e h)
+
+/-- node `i` is in `Leader` state with term `t` -/
+def isLeader (g : Global) (i t : Nat) : Prop :=
+  ∃ n ∈ g.nodes, n.index = i ∧ n.state = .leader ∧ n.term = t
+
+instance (g : Global) (i t : Nat) : Decidable (isLeader g i t) := by
+  unfold isLeader; exact inferInstance
 
 end Raft
